@@ -130,6 +130,20 @@ def diff_matrix(kind, model, impl, shape=None):
     return None
 
 
+class Deferred:
+    """Collects reports so that the caller can emit property-level failures (found_input=True) before correspondence
+    failures (ctx.report keeps the first five)."""
+    def __init__(self):
+        self.oracle, self.corr = [], []
+
+    def report(self, what, replay, found_input=True, finding_key=None):
+        (self.oracle if found_input else self.corr).append((what, replay, found_input))
+
+    def emit(self, ctx, which):
+        for what, replay, fi in (self.oracle if which == "oracle" else self.corr):
+            ctx.report(what, replay, found_input=fi)
+
+
 def judge(ctx, case, val, res, stats):
     """Correspondence of one case; returns True when model and implementation agree on every path."""
     kind = case["kind"]
@@ -182,7 +196,10 @@ def judge(ctx, case, val, res, stats):
 N_COMPILED = 4      # co-occurrence cases also run with the compiled kernels (a fresh numba specialisation costs 5-15 s)
 
 
-def run(ctx, n_ngram, n_token, only=None):
+def run(real_ctx, n_ngram, n_token, only=None):
+    """Returns (stats, Deferred): nothing is reported to the context here."""
+    ctx = Deferred()
+    ctx.rng, ctx.count_case, ctx.coverage = real_ctx.rng, real_ctx.count_case, real_ctx.coverage
     if only is not None:          # replay of one recorded case
         cases = [only]
         n_ngram, n_token = (1, 0) if only["kind"] == "ngram" else (0, 1)
@@ -239,4 +256,4 @@ def run(ctx, n_ngram, n_token, only=None):
     stats["modes"] = {"NgramVectorizer (pure python)": n_ngram, "TokenCooccurrence NUMBA_DISABLE_JIT=1": n_token - n_jit,
                       "TokenCooccurrence compiled": n_jit}
     ctx.coverage["correspondence"]["K02_TwoPaths"] = stats
-    return stats
+    return stats, ctx
